@@ -39,7 +39,6 @@ import (
 const (
 	vpC41Slack        = 600 * time.Millisecond // scheduling slack over the requested timeout
 	vpC41LongTimeout  = 5 * time.Second        // NoHang scenarios: nothing waits, so this never elapses
-	vpC41ExcessSpan   = 40 * time.Millisecond  // an excess of SYN_SENT rows must persist this long (>= 3 samples) to count
 	vpC41SampleEvery  = 3 * time.Millisecond
 	vpC41PrefillProbe = 300 * time.Millisecond
 	vpC41KeyIOTimeout = "C41/poller-timeout-not-errdialtimeout"
@@ -213,23 +212,24 @@ func (u *vpC41Universe) tryPort() (int, bool) {
 	return port, true
 }
 
-// vpC41SynSent counts this process's dials in progress towards hanging endpoints.
-func vpC41SynSent(keys map[string]bool) (int, error) {
+// vpC41SynSent lists this process's dials in progress towards hanging endpoints: one identity
+// (local address + inode) per /proc/net/tcp row in state SYN_SENT whose remote address is a hanging endpoint.
+func vpC41SynSent(keys map[string]bool) (map[string]bool, error) {
 	b, err := os.ReadFile("/proc/net/tcp")
 	if err != nil {
-		return 0, err
+		return nil, err
 	}
-	n := 0
+	out := map[string]bool{}
 	for _, line := range strings.Split(string(b), "\n") {
 		f := strings.Fields(line)
-		if len(f) < 4 || f[3] != "02" {
+		if len(f) < 10 || f[3] != "02" {
 			continue
 		}
 		if keys[f[2]] {
-			n++
+			out[f[1]+"/"+f[9]] = true
 		}
 	}
-	return n, nil
+	return out, nil
 }
 
 func vpC41GetUniverse(t *testing.T) *vpC41Universe {
@@ -292,8 +292,8 @@ func vpC41GetUniverse(t *testing.T) *vpC41Universe {
 		wg.Wait()
 		if u.err == nil {
 			// self-test of the observation: one plain dial towards a hanging endpoint must show up as one SYN_SENT row
-			if n, err := vpC41SynSent(u.hangKeys); err != nil || n != 0 {
-				u.err = fmt.Errorf("observer self-test: %d SYN_SENT rows before any dial (err %v)", n, err)
+			if n, err := vpC41SynSent(u.hangKeys); err != nil || len(n) != 0 {
+				u.err = fmt.Errorf("observer self-test: %d SYN_SENT rows before any dial (err %v)", len(n), err)
 			} else {
 				done := make(chan struct{})
 				go func() {
@@ -304,7 +304,7 @@ func vpC41GetUniverse(t *testing.T) *vpC41Universe {
 				}()
 				seen := false
 				for start := time.Now(); time.Since(start) < 1200*time.Millisecond && !seen; time.Sleep(5 * time.Millisecond) {
-					if n, _ := vpC41SynSent(u.hangKeys); n == 1 {
+					if n, _ := vpC41SynSent(u.hangKeys); len(n) == 1 {
 						seen = true
 					}
 				}
@@ -631,8 +631,8 @@ func TestVP_C41_NoHang(t *testing.T) {
 // ---- scenarios with hanging endpoints ----------------------------------------------------------
 
 type vpC41Sample struct {
-	at time.Duration
-	n  int
+	at   time.Duration
+	conn map[string]bool
 }
 
 func TestVP_C41_Hang(t *testing.T) {
@@ -692,7 +692,9 @@ func TestVP_C41_Hang(t *testing.T) {
 					return
 				}
 				samples = append(samples, vpC41Sample{time.Since(start), n})
-				time.Sleep(vpC41SampleEvery)
+				if len(samples) > 1 {
+					time.Sleep(vpC41SampleEvery)
+				}
 			}
 		}()
 		var wg sync.WaitGroup
@@ -710,27 +712,26 @@ func TestVP_C41_Hang(t *testing.T) {
 			t.Fatalf("VP-INCONCLUSIVE: cannot read /proc/net/tcp: %v", sampErr)
 		}
 		var problems []string
-		// dials in progress never exceed Concurrency (an excess must persist: one read of /proc/net/tcp is
-		// not atomic and can show a closing socket together with its successor)
-		maxSeen, runStart, runLen := 0, -1, 0
+		// dials in progress never exceed Concurrency. One read of /proc/net/tcp is not atomic (it can show
+		// a closing socket together with its successor), so simultaneity is established per socket: a
+		// socket listed by two consecutive reads was connecting during the whole gap between them; more
+		// than Concurrency such sockets = more than Concurrency dials in progress at one instant.
+		maxSeen := 0
 		for i, s := range samples {
-			maxSeen = max(maxSeen, s.n)
-			if s.n > conc {
-				if runStart < 0 {
-					runStart, runLen = i, 0
+			if i == 0 {
+				continue
+			}
+			both := 0
+			for id := range s.conn {
+				if samples[i-1].conn[id] {
+					both++
 				}
-				runLen++
-				if runLen >= 3 && s.at-samples[runStart].at >= vpC41ExcessSpan {
-					worst := 0
-					for _, x := range samples[runStart : i+1] {
-						worst = max(worst, x.n)
-					}
-					problems = append(problems, fmt.Sprintf("up to %d connects in progress towards hanging endpoints for %v (samples %d..%d at %v..%v) with Concurrency %d",
-						worst, (s.at-samples[runStart].at).Round(time.Millisecond), runStart, i, samples[runStart].at.Round(time.Millisecond), s.at.Round(time.Millisecond), conc))
-					break
-				}
-			} else {
-				runStart = -1
+			}
+			maxSeen = max(maxSeen, both)
+			if both > conc {
+				problems = append(problems, fmt.Sprintf("%d connects towards hanging endpoints were in progress at the same time (listed by the reads at %v and at %v) with Concurrency %d",
+					both, samples[i-1].at.Round(time.Millisecond), s.at.Round(time.Millisecond), conc))
+				break
 			}
 		}
 		nTimeout, nOK, nRefused := 0, 0, 0
@@ -752,8 +753,8 @@ func TestVP_C41_Hang(t *testing.T) {
 				problems = append(problems, fmt.Sprintf("dial #%d to %s [%s]: every address hangs, want ErrDialTimeout, got %v", i, h.addr(), h.shape(), dl.err))
 			}
 		}
-		if n, _ := vpC41SynSent(u.hangKeys); n != 0 {
-			problems = append(problems, fmt.Sprintf("%d connects towards hanging endpoints are still in progress after every dial returned", n))
+		if n, _ := vpC41SynSent(u.hangKeys); len(n) != 0 {
+			problems = append(problems, fmt.Sprintf("%d connects towards hanging endpoints are still in progress after every dial returned", len(n)))
 		}
 		if len(problems) > 0 {
 			if len(problems) > 8 {
